@@ -110,7 +110,7 @@ def main():
     na = [{"property_id": p, "reason": PLANNED.get(p, "check not built yet in this revision of /verif (see DESIGN.md §8 build-out order); nothing is claimed for it")} for p in ALL if p not in CHECKS]
     m = {
         "version": 1,
-        "setup_cmd": "cd /verif/harness && CARGO_NET_OFFLINE=true cargo build --release",
+        "setup_cmd": "cd /verif/harness && CARGO_NET_OFFLINE=true cargo build --release && CARGO_NET_OFFLINE=true cargo build --profile nodebug",
         "hooks": {
             "guard": "flurry_verif",
             "enable": "RUSTFLAGS=\"--cfg flurry_verif\" (set in /verif/harness/.cargo/config.toml; flurry is a path dependency on /repo)",
